@@ -8,3 +8,4 @@ ASSUMPTIONS = []
 from vt.contracts import angle  # noqa: F401,E402
 from vt.contracts import dalitz  # noqa: F401,E402
 from vt.contracts import euler  # noqa: F401,E402
+from vt.contracts import roundtrip  # noqa: F401,E402
